@@ -379,7 +379,7 @@ def run(tier, replay=None):
       ('rename_predicates', lambda prog, r: V.rename(prog, r, variables=False, predicates=True)),
       ('rename_predicates_long_names', lambda prog, r: V.rename(prog, r, variables=False, predicates=True, long_names=True)),
   ]
-  K.run_core(rep, PID, tier, PROFILE, variants, 60, 500, 'c07', replay=replay, ok=ok, info=info, metamorphic=True)
+  K.run_core(rep, PID, tier, PROFILE, variants, 60, 220, 'c07', replay=replay, ok=ok, info=info, metamorphic=True)
   if not replay:
     arrival_order(rep, tier)
     sibling_scopes(rep, tier)
